@@ -17,6 +17,9 @@ import Proofs.C06
 import Proofs.C07
 import Proofs.C16
 import Proofs.Lemmas.WalkTop
+import Proofs.Lemmas.WalkNoPanic
+import Proofs.Lemmas.WalkValid3
+import Proofs.GenWalk
 
 namespace Xsel.C15
 open Xsel
@@ -56,6 +59,21 @@ theorem handler_walk_result_or_error (a : Arena) (env : Env) (start : Nat) (e : 
   cases Model.run a env start (Syntax.normCtx e) with
   | ok v => exact .inl ⟨v, rfl⟩
   | error err => exact .inr ⟨err, rfl⟩
+
+/-- **any_forest_never_panics** — the statement for EVERY forest: take any derivation tree of the grammar compiled
+    into the parser (every node an instance of a production of the regenerated table — abbreviated forms, names
+    that spell keywords, either derivation of an ambiguous sentence, any nesting), any context and any bindings.
+    The handler walk with the regenerated handler table never reaches `children[i]` of a missing child, a nil
+    BSR, `literal[1:len-1]` of a short text or `GetTChildI` on a nonterminal: `Exec` cannot fail with its internal
+    "xpath query panic" because of the handler layer.  The premise about the two tables is
+    `Gen.handlers_fit_productions`, decided by kernel evaluation on every run. -/
+theorem any_forest_never_panics (t : Walk.PT) (hv : t.valid Generated.productions = true) (w : Walk.WCtx) :
+    Walk.walk Generated.handlers t w ≠ .error .panic :=
+  Walk.walk_valid_never_panics Generated.handlers Generated.productions Gen.handlers_fit_productions t hv w
+
+/-- the premise is met by the derivation tree of every expression (`C08.forest_is_derivation`) -/
+example (e : Expr) (w : Walk.WCtx) : Walk.walk Generated.handlers (Walk.derivTop e) w ≠ .error .panic :=
+  any_forest_never_panics _ (Walk.derivTop_valid e) w
 
 /-- a panic IS reachable in the model when a handler is registered for a nonterminal whose production does
     not have the children it indexes (the class of defect the regenerated fact
